@@ -16,6 +16,7 @@ import (
 	"sort"
 	"strconv"
 	"strings"
+	"sync"
 	"time"
 
 	"github.com/tmpim/casket"
@@ -38,6 +39,16 @@ type c11In struct {
 	// conf cases of the targeted search with composed arguments: the unproved obligation they were made for; a panic
 	// is then named by that site and the (digit-free) panic message, not by the configuration line
 	Site string `json:"site,omitempty"`
+	// seq cases: configurations loaded one after the other in ONE child process; {FIX} in their text stands for a
+	// scratch directory holding Files (name -> contents) and being the directory of the Casketfile
+	Steps []c11Step         `json:"steps,omitempty"`
+	Files map[string]string `json:"files,omitempty"`
+}
+
+type c11Step struct {
+	Keys     string `json:"keys"`
+	Body     string `json:"body"`
+	Validate bool   `json:"validate,omitempty"` // ValidateAndExecuteDirectives(justValidate) / execute mode
 }
 
 var c11DigitsRe = regexp.MustCompile(`[0-9]+`)
@@ -345,7 +356,246 @@ func c11Run(in0 interface{}) Result {
 	if in.Kind == "cost" {
 		return c11RunCost(in)
 	}
+	if in.Kind == "seq" {
+		return c11RunSeq(in)
+	}
 	return c11RunConf(in)
+}
+
+// ---- sequences: configurations loaded one after the other in ONE process.  A setup that is rejected must leave
+// nothing behind that makes a later setup hang, crash or answer differently: every step is held against the same
+// configuration loaded alone in a fresh process.
+
+const c11StepMs = 3000
+
+type c11SeqReq struct {
+	Dir   string    `json:"dir"`
+	Steps []c11Step `json:"steps"`
+}
+
+func init() {
+	extraCommands["c11seq"] = func(args []string) int {
+		raw, err := io.ReadAll(os.Stdin)
+		var req c11SeqReq
+		if err != nil || json.Unmarshal(raw, &req) != nil {
+			return 3
+		}
+		casket.Quiet = true
+		for i, st := range req.Steps {
+			text := st.Keys + " {\n" + st.Body + "\n}\n"
+			done := make(chan string, 1)
+			go func() {
+				defer func() {
+					if r := recover(); r != nil {
+						done <- "panic:" + fmt.Sprint(r)
+					}
+				}()
+				cf := casket.CasketfileInput{Contents: []byte(text), Filepath: filepath.Join(req.Dir, "Casketfile"), ServerTypeName: "http"}
+				var err error
+				if st.Validate {
+					err = casket.ValidateAndExecuteDirectives(cf, nil, true)
+				} else {
+					err = casket.ValidateAndExecuteDirectives(cf, casket.VerifNewInstance("http"), false)
+				}
+				if err != nil {
+					done <- "error:" + err.Error()
+				} else {
+					done <- "ok"
+				}
+			}()
+			res := ""
+			select {
+			case res = <-done:
+			case <-time.After(c11StepMs * time.Millisecond):
+				res = "timeout"
+			}
+			b, _ := json.Marshal(map[string]interface{}{"step": i, "result": trunc(res, 300)})
+			os.Stdout.Write(append([]byte("C11STEP "), append(b, '\n')...))
+			if res == "timeout" {
+				return 0 // the process is wedged: nothing after a hang is meaningful
+			}
+		}
+		return 0
+	}
+}
+
+// c11SeqChild runs the steps in one child process; a step the child did not report is "timeout" (it hung
+// there or died) and the steps after it "notrun"
+func c11SeqChild(dir string, steps []c11Step) []string {
+	out := make([]string, len(steps))
+	for i := range out {
+		out[i] = "notrun"
+	}
+	exe, err := os.Executable()
+	if err != nil {
+		return out
+	}
+	req, _ := json.Marshal(c11SeqReq{Dir: dir, Steps: steps})
+	cmd := exec.Command(exe, "c11seq")
+	cmd.Stdin = bytes.NewReader(req)
+	cmd.Dir = dir
+	var buf bytes.Buffer
+	cmd.Stdout = &buf
+	if err := cmd.Start(); err != nil {
+		return out
+	}
+	done := make(chan error, 1)
+	go func() { done <- cmd.Wait() }()
+	select {
+	case <-done:
+	case <-time.After(time.Duration(len(steps)*c11StepMs+3000) * time.Millisecond):
+		cmd.Process.Kill()
+		<-done
+	}
+	n := 0
+	for _, l := range strings.Split(buf.String(), "\n") {
+		if strings.HasPrefix(l, "C11STEP ") {
+			var w struct {
+				Step   int    `json:"step"`
+				Result string `json:"result"`
+			}
+			if json.Unmarshal([]byte(strings.TrimPrefix(l, "C11STEP ")), &w) == nil && w.Step < len(out) {
+				out[w.Step] = w.Result
+				n = w.Step + 1
+			}
+		}
+	}
+	if n < len(out) && (n == 0 || out[n-1] != "timeout") {
+		out[n] = "crash:" + trunc(buf.String(), 120) // the child died in this step
+	}
+	return out
+}
+
+var c11SeqN struct {
+	sync.Mutex
+	n int
+}
+
+func c11SeqScratch() string { return fmt.Sprintf("/var/tmp/verif-C11-%d", os.Getpid()) }
+
+// c11Fixture makes a scratch directory holding the files of the case
+func c11Fixture(files map[string]string) string {
+	c11SeqN.Lock()
+	c11SeqN.n++
+	dir := filepath.Join(c11SeqScratch(), fmt.Sprintf("s%d", c11SeqN.n))
+	c11SeqN.Unlock()
+	os.MkdirAll(dir, 0o755)
+	for name, body := range files {
+		os.MkdirAll(filepath.Dir(filepath.Join(dir, name)), 0o755)
+		os.WriteFile(filepath.Join(dir, name), []byte(body), 0o644)
+	}
+	return dir
+}
+
+func c11SeqClass(r string) uint64 {
+	if r == "notrun" {
+		return 4
+	}
+	return c11Class(r)
+}
+
+func c11RunSeqOne(in *c11In) Result {
+	subst := func(dir string) []c11Step {
+		st := make([]c11Step, len(in.Steps))
+		for i, x := range in.Steps {
+			st[i] = c11Step{Keys: strings.ReplaceAll(x.Keys, "{FIX}", dir), Body: strings.ReplaceAll(x.Body, "{FIX}", dir), Validate: x.Validate}
+		}
+		return st
+	}
+	dir := c11Fixture(in.Files)
+	inseq := c11SeqChild(dir, subst(dir))
+	os.RemoveAll(dir)
+	// each configuration alone, in a fresh process with a fresh copy of the files
+	alone := make([]string, len(in.Steps))
+	fkey, _ := json.Marshal(in.Files)
+	for i := range in.Steps {
+		mk, _ := json.Marshal(in.Steps[i])
+		memo := string(fkey) + "|" + string(mk)
+		c11AloneMu.Lock()
+		r, ok := c11Alone[memo]
+		c11AloneMu.Unlock()
+		if !ok {
+			d := c11Fixture(in.Files)
+			r = strings.ReplaceAll(c11SeqChild(d, subst(d)[i:i+1])[0], d, "{FIX}")
+			os.RemoveAll(d)
+			c11AloneMu.Lock()
+			c11Alone[memo] = r
+			c11AloneMu.Unlock()
+		}
+		alone[i] = r
+	}
+	var pairs []string
+	sig, bad := "seq:"+in.Dir, -1
+	rejectedBefore, nontrivial := false, false
+	for i := range in.Steps {
+		a, s := c11SeqClass(alone[i]), c11SeqClass(inseq[i])
+		pairs = append(pairs, cPair(cN(a), cN(s)))
+		if bad < 0 && (a != s || s >= 2) {
+			bad = i
+		}
+		if rejectedBefore && a == 0 {
+			nontrivial = true
+		}
+		if a == 1 {
+			rejectedBefore = true
+		}
+	}
+	direct := ""
+	if bad >= 0 {
+		names := []string{"accepted", "rejected", "panic", "hang", "not-run"}
+		first := strings.Fields(in.Steps[bad].Body + " ?")[0]
+		sig = fmt.Sprintf("seq:%s:step%d-of-%d:%s:%s-instead-of-%s", in.Dir, bad+1, len(in.Steps), first, names[c11SeqClass(inseq[bad])], names[c11SeqClass(alone[bad])])
+	}
+	var lines []string
+	for i, st := range in.Steps {
+		mode := "execute"
+		if st.Validate {
+			mode = "validate"
+		}
+		lines = append(lines, fmt.Sprintf("step %d (%s): %s { %s } -> %s (alone: %s)", i+1, mode, st.Keys, strings.Join(strings.Fields(st.Body), " "), trunc(inseq[i], 160), trunc(alone[i], 160)))
+	}
+	key, _ := json.Marshal(in)
+	return Result{Term: cApp("CSeq", cList(pairs)), Obs: map[string]interface{}{"steps": lines}, Sig: sig, Direct: direct,
+		Nontrivial: nontrivial, Key: string(key), Class: fmt.Sprintf("seq:%s:%dsteps", in.Dir, len(in.Steps))}
+}
+
+var (
+	c11Alone       = map[string]string{}
+	c11AloneMu     sync.Mutex
+	c11SeqBatch    []*c11In
+	c11SeqBatchRes = map[*c11In]Result{}
+	c11SeqOnce     sync.Once
+)
+
+func c11RunSeq(in *c11In) Result {
+	if len(c11SeqBatch) > 0 {
+		c11SeqOnce.Do(func() {
+			var mu sync.Mutex
+			var wg sync.WaitGroup
+			sem := make(chan struct{}, 8)
+			for _, x := range c11SeqBatch {
+				x := x
+				wg.Add(1)
+				sem <- struct{}{}
+				go func() {
+					defer wg.Done()
+					defer func() { <-sem }()
+					res := c11RunSeqOne(x)
+					mu.Lock()
+					c11SeqBatchRes[x] = res
+					mu.Unlock()
+				}()
+			}
+			wg.Wait()
+			os.RemoveAll(c11SeqScratch())
+		})
+		if res, ok := c11SeqBatchRes[in]; ok {
+			return res
+		}
+	}
+	res := c11RunSeqOne(in)
+	os.RemoveAll(c11SeqScratch())
+	return res
 }
 
 // directive -> package directory (relative to the repository root)
@@ -573,6 +823,111 @@ func c11Unproved() []c11Target {
 	return out
 }
 
+// c11SeqFiles: the fixture of every sequence case (the working directory of the child and the directory of its
+// Casketfile): htpasswd files that are well-formed / malformed (a line without separator after a good one, a hash
+// its parser rejects) / lacking the user, a certificate file that is not one, a page
+var c11SeqFiles = map[string]string{
+	"htpasswd":       "user:{SHA}W6ph5Mm5Pz8GgiULbPgzG37mj9g=\nother:{SHA}W6ph5Mm5Pz8GgiULbPgzG37mj9g=\n",
+	"malformed":      "other:{SHA}W6ph5Mm5Pz8GgiULbPgzG37mj9g=\nthis line lost its colon\nuser:{SHA}W6ph5Mm5Pz8GgiULbPgzG37mj9g=\n",
+	"malformed-hash": "user:{SHA}W6ph5Mm5Pz8GgiULbPgzG37mj9g=\nother:$2y$05$c4WoMPo3SXsafkva.HHa6uXQZWr7oboPiC2bT/r7q1BB8I2s0BRqC\n",
+	"nouser":         "other:{SHA}W6ph5Mm5Pz8GgiULbPgzG37mj9g=\n",
+	"garbage.pem":    "-----BEGIN CERTIFICATE-----\nnot a certificate\n-----END CERTIFICATE-----\n",
+	"page.html":      "<html></html>\n",
+	"page.md":        "# page\n",
+}
+
+// spellings that are (meant to be) accepted, per directive; whether they are is observed, not assumed
+var c11SeqAccepted = map[string]string{
+	"basicauth": "basicauth / user htpasswd=htpasswd", "browse": "browse", "errors": "errors {\n  404 page.html\n}", "expvar": "expvar", "ext": "ext .html",
+	"fastcgi": "fastcgi / 127.0.0.1:9000 php", "gzip": "gzip", "header": "header / X-A b", "index": "index index.html", "internal": "internal /secret",
+	"limits": "limits 1mb", "log": "log / {FIX}/access.log", "markdown": "markdown / {\n  template page.html\n}", "mime": "mime .txt text/plain", "pprof": "pprof", "proxy": "proxy / 127.0.0.1:9",
+	"push": "push", "redir": "redir /a /b", "request_id": "request_id", "rewrite": "rewrite /a /b", "root": "root {FIX}", "status": "status 404 /x",
+	"templates": "templates", "timeouts": "timeouts 10s", "tryfiles": "tryfiles /a /b", "websocket": "websocket /ws cat", "bind": "bind 127.0.0.1",
+	"tls": "tls off", "on": "on startup /bin/true",
+}
+
+// spellings that are (meant to be) rejected for a reason of the ENVIRONMENT (a file that is missing, malformed or
+// lacks what is asked of it) - the error paths that run after a resource was taken
+var c11SeqRejected = map[string][]string{
+	"basicauth": {"basicauth / user htpasswd=missing", "basicauth / user htpasswd=malformed", "basicauth / user htpasswd=malformed-hash", "basicauth / user htpasswd=nouser",
+		"basicauth / user htpasswd=htpasswd {\n  realm\n}"},
+	"tls":       {"tls garbage.pem garbage.pem", "tls missing.pem missing.key", "tls {\n  load missing-dir\n}", "tls {\n  clients garbage.pem\n}"},
+	"markdown":  {"markdown / {\n  template missing.html\n}", "markdown / {\n  template a b c d\n}"},
+	"errors":    {"errors {\n  404 missing.html\n}", "errors {\n  rotate_size bogus\n}"},
+	"log":       {"log / {FIX}/access.log {\n  rotate_size bogus\n}", "log / {FIX}/access.log {\n  ipmask\n}"},
+	"proxy":     {"proxy / 127.0.0.1:9 {\n  policy bogus\n}", "proxy / 127.0.0.1:9 {\n  health_check_interval bogus\n}", "proxy / unix:\n"},
+	"templates": {"templates {\n  between a\n}"},
+	"on":        {"on startup /bin/true\non no-such-event /bin/true", "on startup"},
+	"root":      {"root a b", "root"},
+	"fastcgi":   {"fastcgi / 127.0.0.1:9000 {\n  pool bogus\n}", "fastcgi /"},
+	"rewrite":   {"rewrite {\n  regexp (\n  to /x\n}", "rewrite /a"},
+	"redir":     {"redir / /elsewhere 999"},
+	"gzip":      {"gzip {\n  level 99\n}"},
+	"timeouts":  {"timeouts bogus"},
+	"limits":    {"limits bogus"},
+	"status":    {"status bogus /x"},
+	"websocket": {"websocket /ws"},
+	"bind":      {"bind"},
+	"header":    {"header /"},
+	"mime":      {"mime txt text/plain"},
+	"ext":       {"ext"},
+	"index":     {"index"},
+	"internal":  {"internal"},
+	"push":      {"push / {\n  method\n}"},
+	"browse":    {"browse / missing-template.html"},
+	"expvar":    {"expvar /a /b"},
+	"pprof":     {"pprof x"},
+	"request_id": {"request_id a b"},
+	"tryfiles":  {"tryfiles"},
+}
+
+func c11GenSeqs(dirs []string, tier string) []*c11In {
+	var out []*c11In
+	const key = "127.0.0.1:0"
+	mk := func(d string, steps ...c11Step) {
+		out = append(out, &c11In{Kind: "seq", Dir: d, Files: c11SeqFiles, Steps: steps})
+	}
+	st := func(body string, validate bool) c11Step { return c11Step{Keys: key, Body: body, Validate: validate} }
+	for di, d := range dirs {
+		ok := c11SeqAccepted[d]
+		if ok == "" {
+			ok = d
+		}
+		rej := append([]string{}, c11SeqRejected[d]...)
+		// generic: a sub-directive nobody knows, surplus arguments, file arguments that do not exist
+		rej = append(rej, d+" {\n  c11_no_such_subdirective x\n}", d+" a b c d e f g", d+" / missing")
+		other := dirs[(di+1)%len(dirs)]
+		okOther := c11SeqAccepted[other]
+		if okOther == "" {
+			okOther = other
+		}
+		for ri, r := range rej {
+			if tier != "thorough" && ri >= len(c11SeqRejected[d])+1 && ri%2 == di%2 {
+				continue // quick: one or two of the three generic ones
+			}
+			mk(d, st(r, true), st(ok, true))
+			mk(d, st(r, false), st(ok, false))
+			mk(d, st(r, true), st(r, false), st(ok, false))
+			if d != "basicauth" {
+				mk(d, st(r, ri%2 == 0), st(c11SeqAccepted["basicauth"], ri%2 == 1), st(okOther, false))
+			} else {
+				mk(d, st(r, ri%2 == 0), st(okOther, false), st("basicauth / other htpasswd=nouser", ri%2 == 1))
+			}
+			if tier == "thorough" {
+				mk(d, st(ok, false), st(r, false), st(ok, true))
+				mk(d, st(r, false), st(ok, true))
+				mk(d, st(r, true), st(ok, false))
+				for _, o2 := range dirs {
+					if o2 != d && c11SeqAccepted[o2] != "" {
+						mk(d, st(r, false), st(c11SeqAccepted[o2], false))
+					}
+				}
+			}
+		}
+	}
+	return out
+}
+
 func c11Gen(r *Rand, tier string) []interface{} {
 	var out []interface{}
 	nDisp, perDir := 900, 25
@@ -745,6 +1100,39 @@ func c11Gen(r *Rand, tier string) []interface{} {
 			out = append(out, &c11In{Kind: "conf", Dir: d, Keys: keys, Body: sb.String()})
 		}
 	}
+	// `root` and every other directive with arguments that name the Casketfile itself, its directory, parents,
+	// children and name-prefix siblings (the parsing callback of `root` compares the two paths; it runs in execute
+	// mode only).  The Casketfile of a conf case is ./Casketfile of the harness's working directory.
+	cwd, _ := os.Getwd()
+	base := filepath.Base(cwd)
+	selfPaths := []string{"Casketfile", "./Casketfile", filepath.Join(cwd, "Casketfile"), "../" + base + "/Casketfile", "Casketfile/", "Casketfile/sub", filepath.Join(cwd, "Casketfile", "sub"),
+		".", "./", cwd, cwd + "/", "..", filepath.Dir(cwd), "/", "Casketfil", "Casketfile2", filepath.Join(cwd, "Casketfile-conf"), cwd + "-conf", "C", ""}
+	for _, d := range dirs {
+		site := ""
+		for _, t := range targets {
+			for _, td := range t.dirs {
+				if td == d && site == "" {
+					site = t.site
+				}
+			}
+		}
+		for _, p := range selfPaths {
+			if d != "root" && site == "" && tier != "thorough" && !(p == "Casketfile" || p == cwd || p == "/") {
+				continue
+			}
+			out = append(out, &c11In{Kind: "conf", Dir: d, Keys: keysPool[0], Site: site, Body: d + " " + q(p) + "\n"})
+			if d != "root" {
+				out = append(out, &c11In{Kind: "conf", Dir: "root", Keys: keysPool[0], Site: site, Body: "root " + q(p) + "\n" + d + " / " + q(p) + "\n"})
+			}
+		}
+	}
+	// sequences in ONE process: a rejected configuration of every directive followed by accepted ones of the same
+	// directive and of others (two and three steps, every pair of modes)
+	seqs := c11GenSeqs(dirs, tier)
+	c11SeqBatch = seqs
+	for _, x := range seqs {
+		out = append(out, x)
+	}
 	// data-dependent work in setup: upstream port ranges of proxy (one upstream host per port)
 	type rg struct{ lo, hi int }
 	ranges := []rg{{1, 1}, {1, 2}, {80, 90}, {8000, 8100}, {1, 1000}, {1, 65535}, {5, 4}, {0, 0}}
@@ -779,7 +1167,7 @@ func c11Gen(r *Rand, tier string) []interface{} {
 func init() {
 	register(&Property{
 		ID: "C11", Imports: "V.Lib V.C11_Model V.C11_Cases", Judge: "judge", Shard: 300,
-		Rule: "(targeted search: for every obligation of this run that lia does not prove and that is not pinned, the directives holding the site get 13x the configurations with the enclosing function's own string literals and their boundary variants as arguments, and every argument composed from the function's own separator literals in every relative order - [prefix] atom sep atom [sep atom [sep atom]], e.g. scheme://host:port/path:with:colons, host/a:b, [::1]:80/x:y, unix:/p:q - as first / second argument and as argument of a sub-directive; cost cases: proxy upstream port ranges, each mode in a child process under 2 s / 256 MiB, killed at 6 s / 320 MiB live heap; blocks with 2-3 keys of different shapes carry the per-key outcomes and are held against the executeDirectives model) Dispenser: random token lists (incl. foreign files / non-monotone lines as spliced imports produce) x random operation sequences on the real casketfile.Dispenser vs the model; configurations: for every registered directive, argument counts 0..4 over lexical classes and sub-blocks over the directive's own keyword vocabulary (harvested from its package's case labels), each run through ValidateAndExecuteDirectives in validate and in execute mode under recover + watchdog; non-trivial = >=2 tokens / accepted or mode-dependent configuration; distinct = distinct configuration text",
+		Rule: "(targeted search: for every obligation of this run that lia does not prove and that is not pinned, the directives holding the site get 13x the configurations with the enclosing function's own string literals and their boundary variants as arguments, and every argument composed from the function's own separator literals in every relative order - [prefix] atom sep atom [sep atom [sep atom]], e.g. scheme://host:port/path:with:colons, host/a:b, [::1]:80/x:y, unix:/p:q - as first / second argument and as argument of a sub-directive; cost cases: proxy upstream port ranges, each mode in a child process under 2 s / 256 MiB, killed at 6 s / 320 MiB live heap; blocks with 2-3 keys of different shapes carry the per-key outcomes and are held against the executeDirectives model) Dispenser: random token lists (incl. foreign files / non-monotone lines as spliced imports produce) x random operation sequences on the real casketfile.Dispenser vs the model; sequences: for every registered directive a rejected configuration (environment faults where the directive reads files - htpasswd missing / malformed after a good line / with a hash its parser rejects / lacking the user, certificate files that are not, missing templates and pages - bad values, an unknown sub-directive, surplus arguments) followed by accepted configurations of the same directive and of others, two and three steps, every pair of modes, ALL IN ONE child process with a watchdog per step; each step is held against the same configuration loaded alone in a fresh process (a hang, a crash or a different answer after a rejected setup is reported with the sequence); `root` (and, sampled, every directive) with arguments naming the Casketfile itself, its directory, parents, children and name-prefix siblings; configurations: for every registered directive, argument counts 0..4 over lexical classes and sub-blocks over the directive's own keyword vocabulary (harvested from its package's case labels), each run through ValidateAndExecuteDirectives in validate and in execute mode under recover + watchdog; non-trivial = >=2 tokens / accepted or mode-dependent configuration; distinct = distinct configuration text",
 		Gen:    c11Gen,
 		Decode: func(raw json.RawMessage) (interface{}, error) { in := &c11In{}; return in, json.Unmarshal(raw, in) },
 		Run:    c11Run,
